@@ -5,8 +5,10 @@ use crate::engine::PropertyDef;
 pub mod c02;
 pub mod c03;
 pub mod c04;
+pub mod c05;
+pub mod c15;
 pub mod c16;
 
 pub fn all() -> Vec<PropertyDef> {
-    vec![c02::def(), c03::def(), c04::def(), c16::def()]
+    vec![c02::def(), c03::def(), c04::def(), c05::def(), c15::def(), c16::def()]
 }
